@@ -190,7 +190,18 @@ def make_run(W, shape, known_active=None):
         hs[M].__annotations__ = {"x": W.K[2] if n > 2 else object}
         parent.register(hs[M], priority=(CountInt(0) if shape.get('equal_prio') else W.prio[M]))
         phase("after register")
-        succ = sum(1 for t in trace if t["warm"][1][0] == "ret")
+        if shape.get("wide"):
+            # many more argument classes than any bounded table would keep: 140 fresh subclasses of K0, each handled once, then the first ones again
+            subs = [type(W.K[0])(f"K0s{i}", (W.K[0],), {}) for i in range(140)] if hasattr(W.K[0], "_idx") else []
+            insts = [c() for c in subs]
+            firsts = [full_outcome(lambda: ov.dispatch(a), LOG) for a in insts]
+            before = total()
+            again = [full_outcome(lambda: ov.dispatch(a), LOG) for a in insts[:12]]
+            delta = total() - before
+            trace.append(dict(phase="140 classes, first 12 again", cls=0, warm=firsts[0] if firsts else None, again=again[0] if again else None, recomputation=delta))
+            if firsts and all(f_[1][0] == "ret" for f_ in firsts[:12]) and (delta != 0 or again != firsts[:12]):
+                ok = False
+        succ = sum(1 for t in trace if t["warm"] and t["warm"][1][0] == "ret")
         return Verdict(ok, (), dict(trace=trace), [f"succ{succ}"], nontrivial=succ >= 2)
 
     return run
@@ -217,6 +228,7 @@ def gen_shapes(tier, seed):
     for i, sh in enumerate(out):
         sh["equal_prio"] = tier == "quick"
         sh["linked"] = i % 4 == 3
+        sh["wide"] = i % 8 == 1
     return out, total, True
 
 
@@ -240,7 +252,8 @@ def main(tier, seed):
         bounds=dict(classes=3, methods="3 (+1 registered after the first phase)", positions=1,
                     annotations="harness classes, object, two class_check(predicate) types, Dependent[class_check(predicate), condition], one user type with __type_order__/__is_supertype__ hooks",
                     bodies="return | call_next(x) | recurse(other) | call_next(other)", calls="warm-up of K0, K1, object(); then each again; register; both phases again; every 4th method set: the calls go to a linkback copy, "
-                    "whose parent is used for the first time between the phases (no re-warm allowed) and receives the registration",
+                    "whose parent is used for the first time between the phases (no re-warm allowed) and receives the registration; every 8th: 140 further "
+                    "subclasses of K0 are handled once each and the first 12 called again",
                     hook_answers="predicates: one solver boolean per (predicate, class); hooks: supertype boolean per class, order chosen among "
                                  "LESS/MORE/NONE/NotImplemented per class",
                     priorities="all equal (quick) / symbolic integers (thorough)",
